@@ -51,3 +51,193 @@ Qed.
 Lemma first_named_app : forall nm a b,
   first_named nm (a ++ b) = match first_named nm a with Some e => Some e | None => first_named nm b end.
 Proof. induction a as [|e t IH]; intro b; simpl; [reflexivity|]. destruct (String.eqb (ue_name e) nm); auto. Qed.
+
+(* ---- mutateAccounts: what is written, and what run-as becomes ----------------- *)
+Lemma fbind_ok' : forall {A B} (r : fres A) (k : A -> fres B) b,
+  fbind r k = FOk b -> exists a, r = FOk a /\ k a = FOk b.
+Proof. intros A B r k b H. destruct r; simpl in H; try discriminate. eauto. Qed.
+
+(* A successful passwd half: the old text parsed, the homes loop ran over
+   old ++ configured, the file finally opened by Create holds exactly the
+   written form of old ++ configured, and run-as is the uid of the FIRST entry
+   of that name in old ++ configured (old = package-provided entries first). *)
+Lemma mutate_users_inv : forall maxl f users ra f' ra',
+  mutate_users maxl f users ra = FOk (f', ra') ->
+  exists f1 txt old f2 f3 i,
+    read_or_create maxl f etc_passwd passwd_open_perm = FOk (f1, txt) /\
+    parse_users txt = Some old /\
+    let es := old ++ List.map user_to_entry users in
+    ensure_homes maxl f1 es = FOk f2 /\
+    openfile maxl maxl f2 etc_passwd create_perm = FOk (f3, i) /\
+    f' = upd f3 i (fun n => with_data n (write_users es)) /\
+    RunAsResolved ra es ra'.
+Proof.
+  intros maxl f users ra f' ra' H. unfold mutate_users in H.
+  apply fbind_ok' in H. destruct H as ([f1 txt] & Hr & H).
+  destruct (parse_users txt) as [old|] eqn:Hp; [|discriminate].
+  apply fbind_ok' in H. destruct H as (f2 & Hh & H).
+  apply fbind_ok' in H. destruct H as (f3' & Hc & H).
+  unfold create_write in Hc. apply fbind_ok' in Hc. destruct Hc as ([f3 i] & Ho & Hc).
+  inversion Hc; subst f3'. inversion H; subst. clear H Hc.
+  exists f1, txt, old, f2, f3, i. repeat split; auto.
+  unfold RunAsResolved. destruct (String.eqb_spec ra "") as [E|E]; [exact E|].
+  pose proof (resolve_run_as_spec ra (old ++ List.map user_to_entry users) E) as HR.
+  unfold RunAsResolved in HR. destruct (String.eqb_spec ra ""); [contradiction|exact HR].
+Qed.
+
+Lemma mutate_groups_inv : forall maxl f groups f',
+  groups <> [] -> mutate_groups maxl f groups = FOk f' ->
+  exists f1 txt old f2 i,
+    read_or_create maxl f etc_group group_open_perm = FOk (f1, txt) /\
+    parse_groups txt = Some old /\
+    openfile maxl maxl f1 etc_group create_perm = FOk (f2, i) /\
+    f' = upd f2 i (fun n => with_data n (write_groups (old ++ List.map group_to_entry groups))).
+Proof.
+  intros maxl f groups f' Hne H. unfold mutate_groups in H.
+  destruct groups as [|g gs]; [contradiction|].
+  apply fbind_ok' in H. destruct H as ([f1 txt] & Hr & H).
+  destruct (parse_groups txt) as [old|] eqn:Hp; [|discriminate].
+  unfold create_write in H. apply fbind_ok' in H. destruct H as ([f2 i] & Ho & H).
+  inversion H; subst. exists f1, txt, old, f2, i. repeat split; auto.
+Qed.
+Lemma mutate_groups_none : forall maxl f, mutate_groups maxl f [] = FOk f.
+Proof. reflexivity. Qed.
+
+(* run-as: package-provided entries win over configured ones *)
+Lemma run_as_prefers_old : forall ra old added e r,
+  ra <> "" -> first_named ra old = Some e -> RunAsResolved ra (old ++ added) r -> r = dec (ue_uid e).
+Proof.
+  intros ra old added e r Hne Hf H. unfold RunAsResolved in H.
+  destruct (String.eqb_spec ra ""); [contradiction|].
+  rewrite first_named_app, Hf in H. exact H.
+Qed.
+Lemma run_as_unchanged : forall ra es r,
+  first_named ra es = None -> RunAsResolved ra es r -> r = ra.
+Proof.
+  intros ra es r Hf H. unfold RunAsResolved in H.
+  destruct (String.eqb_spec ra ""); [congruence|]. rewrite Hf in H. exact H.
+Qed.
+
+(* ---- homes ---------------------------------------------------------------------- *)
+Lemma ensure_home_homeless : forall maxl f e, ue_home e = no_home -> ensure_home maxl f e = FOk f.
+Proof. intros maxl f e H. unfold ensure_home. rewrite H. reflexivity. Qed.
+
+(* an existing directory (also through a symlink) is left alone: the whole
+   filesystem is unchanged by this entry *)
+Lemma ensure_home_existing_dir : forall maxl f e n,
+  stat maxl f (path_of (ue_home e)) = FOk n -> is_dir n = true -> ensure_home maxl f e = FOk f.
+Proof.
+  intros maxl f e n Hs Hd. unfold ensure_home.
+  destruct (String.eqb (ue_home e) no_home); [reflexivity|]. rewrite Hs, Hd. reflexivity.
+Qed.
+(* an existing non-directory is an error *)
+Lemma ensure_home_non_directory : forall maxl f e n,
+  ue_home e <> no_home ->
+  stat maxl f (path_of (ue_home e)) = FOk n -> is_dir n = false -> ensure_home maxl f e = FErr.
+Proof.
+  intros maxl f e n Hn Hs Hd. unfold ensure_home.
+  destruct (String.eqb_spec (ue_home e) no_home); [contradiction|]. rewrite Hs, Hd. reflexivity.
+Qed.
+(* a missing home: parents with 0755, Mkdir with 0700, Chown to the entry *)
+Lemma ensure_home_missing : forall maxl f e f',
+  ue_home e <> no_home ->
+  stat maxl f (path_of (ue_home e)) = FNotExist -> ensure_home maxl f e = FOk f' ->
+  let h := path_of (ue_home e) in
+  exists f1 f2, mkdirall maxl f (pdir h) home_parent_perm = FOk f1 /\
+                mkdir maxl f1 h home_perm = FOk f2 /\
+                chown maxl f2 h (ue_uid e) (ue_gid e) = FOk f'.
+Proof.
+  intros maxl f e f' Hn Hs H. unfold ensure_home in H.
+  destruct (String.eqb_spec (ue_home e) no_home); [contradiction|]. rewrite Hs in H.
+  apply fbind_ok' in H. destruct H as (f1 & H1 & H). apply fbind_ok' in H. destruct H as (f2 & H2 & H).
+  exists f1, f2. auto.
+Qed.
+
+(* the created home on a tree where nothing is in the way: 0700, owned by the
+   entry, parents 0755 — a concrete instance (non-vacuity), and the trailing-slash
+   witness of finding C13-F3 *)
+Definition tree_with_etc : fs :=
+  [mkNode KDir 493 0 0 "" "" [("etc", 1%nat)]; mkNode KDir 493 0 0 "" "" []].
+
+Lemma home_created_example :
+  exists f', ensure_home 40 tree_with_etc (mkUE "app" "x" 1000 1000 "" "/home/app" "/bin/sh") = FOk f' /\
+    option_map sinfo_of (match stat 40 f' (path_of "/home/app") with FOk n => Some n | _ => None end)
+      = Some (mkSinfo KDir spec_home_mode 1000 1000) /\
+    option_map sinfo_of (match stat 40 f' (path_of "/home") with FOk n => Some n | _ => None end)
+      = Some (mkSinfo KDir spec_parent_mode 0 0).
+Proof. eexists. split; [vm_compute; reflexivity|]. split; vm_compute; reflexivity. Qed.
+
+Lemma home_trailing_slash_refuted :
+  exists e f', ue_home e = "/srv/ts/" /\ ensure_home 40 tree_with_etc e = FOk f' /\
+    stat 40 tree_with_etc (path_of (ue_home e)) = FNotExist /\
+    option_map sinfo_of (match stat 40 f' (path_of (ue_home e)) with FOk n => Some n | _ => None end)
+      = Some (mkSinfo KDir spec_parent_mode (ue_uid e) (ue_gid e)) /\
+    home_realised_b (ue_uid e) (ue_gid e) None
+      (option_map sinfo_of (match stat 40 f' (path_of (ue_home e)) with FOk n => Some n | _ => None end)) = false.
+Proof.
+  exists (mkUE "ts" "x" 5 6 "" "/srv/ts/" "/bin/sh"). eexists.
+  split; [reflexivity|]. split; [vm_compute; reflexivity|]. repeat split; vm_compute; reflexivity.
+Qed.
+
+(* ---- the validators decide the readable statements ---------------------------- *)
+Lemma run_as_resolved_b_iff : forall ra es r, run_as_resolved_b ra es r = true <-> RunAsResolved ra es r.
+Proof.
+  intros ra es r. unfold run_as_resolved_b, RunAsResolved.
+  destruct (String.eqb ra ""); [apply String.eqb_eq|].
+  destruct (first_named ra es); apply String.eqb_eq.
+Qed.
+
+Lemma kind_eqb_iff : forall a b, kind_eqb a b = true <-> a = b.
+Proof. intros [] []; simpl; split; congruence. Qed.
+Lemma sinfo_eqb_iff : forall a b, sinfo_eqb a b = true <-> a = b.
+Proof.
+  intros [k p u g] [k' p' u' g']. unfold sinfo_eqb. cbn [si_kind si_perm si_uid si_gid].
+  rewrite !andb_true_iff, kind_eqb_iff, !N.eqb_eq. split.
+  - intros [[[-> ->] ->] ->]. reflexivity.
+  - intro H. inversion H. auto.
+Qed.
+Lemma home_realised_b_iff : forall u g b a, home_realised_b u g b a = true <-> HomeRealised u g b a.
+Proof.
+  intros u g [b|] a; unfold home_realised_b, HomeRealised.
+  - rewrite andb_true_iff, kind_eqb_iff. destruct a as [a|]; simpl.
+    + rewrite sinfo_eqb_iff. split; [intros [H ->]; auto | intros [H E]; inversion E; auto].
+    + split; [intros [_ H]; discriminate | intros [_ H]; discriminate].
+  - destruct a as [a|]; simpl.
+    + rewrite sinfo_eqb_iff. split; [intros ->; reflexivity | intro E; inversion E; reflexivity].
+    + split; discriminate.
+Qed.
+
+Lemma user_realised_b_iff : forall u e, user_realised_b u e = true <-> UserRealised u e.
+Proof.
+  intros u e. unfold user_realised_b, UserRealised.
+  rewrite !andb_true_iff, !String.eqb_eq, !N.eqb_eq. tauto.
+Qed.
+Lemma ue_eqb_iff : forall a b, ue_eqb a b = true <-> a = b.
+Proof.
+  intros [n p u g i h s] [n' p' u' g' i' h' s']. unfold ue_eqb. cbn.
+  rewrite !andb_true_iff, !String.eqb_eq, !N.eqb_eq. split.
+  - intros [[[[[[-> ->] ->] ->] ->] ->] ->]. reflexivity.
+  - intro H. inversion H. tauto.
+Qed.
+Lemma forall2b_iff : forall {A B} (p : A -> B -> bool) (P : A -> B -> Prop),
+  (forall a b, p a b = true <-> P a b) ->
+  forall l l', forall2b p l l' = true <-> Forall2 P l l'.
+Proof.
+  intros A B p P H. induction l as [|x l IH]; destruct l' as [|y l']; simpl; split; intro E;
+    try discriminate; try constructor; try solve [inversion E].
+  - apply andb_true_iff in E. apply H, E.
+  - apply andb_true_iff in E. apply IH, E.
+  - inversion E; subst. apply andb_true_iff. split; [apply H | apply IH]; assumption.
+Qed.
+Lemma passwd_realised_b_iff : forall old users new,
+  passwd_realised_b old users new = true <-> PasswdRealised old users new.
+Proof.
+  intros old users new. unfold passwd_realised_b, PasswdRealised.
+  rewrite andb_true_iff, (list_eqb_spec ue_eqb ue_eqb_iff), (forall2b_iff _ _ user_realised_b_iff).
+  split.
+  - intros [H1 H2]. exists (skipn (List.length old) new). split; [|exact H2].
+    rewrite <- H1 at 1. symmetry. apply firstn_skipn.
+  - intros (added & -> & H). split.
+    + rewrite firstn_app, Nat.sub_diag, firstn_all. simpl. apply app_nil_r.
+    + rewrite skipn_app, Nat.sub_diag, skipn_all. exact H.
+Qed.
